@@ -71,7 +71,7 @@ Proof.
   intros tags. unfold ds_init, ds_accepts. cbn [bD7 repaired negb].
   repeat match goal with |- context [if ?b then _ else _] => destruct b; cbn [obind]; try discriminate end.
   unfold ds_init_sharded, sh_init_gate. cbn [bN1 bN7 repaired negb andb app].
-  destruct (too_small c (snd (sh_dims c (leaves t)))); cbn [obind]; try discriminate.
+  destruct (sh_too_small c (leaves t)); cbn [obind]; try discriminate.
   destruct (sh_dims c (leaves t)); discriminate.
 Qed.
 
